@@ -20,10 +20,10 @@ The semantic property that should hold for Tangelo:
 YOUR TASK: produce TWO independent changes (mutants), each at a different site/mechanism, to the library source (not tests) that each BREAK this property while the code still imports and the EXISTING test-suite still passes. Prefer changes that look like plausible programmer mistakes or "optimisations" (wrong index/sign in a rarely taken branch, missing copy, stale cache, off-by-one in a table, wrong period/threshold, forgotten case, two sites that each look fine alone) and that need something specific to manifest: an unusual input (e.g. a particular gate type with 2+ controls, negative or >2*pi angle, odd register size, index gaps, complex coefficients), a multi-step sequence of operations, a particular configuration/option - NOT ones that ordinary use or the existing tests would expose at once. Do not make changes that merely raise exceptions everywhere or break the API.
 
 For EACH mutant k in {{1,2}} deliver in {outdir}/m<k>/ :
-  - patch.diff : output of `git -C {wt} diff` for that mutant alone (relative to the worktree's HEAD; each patch must apply on its own to a clean checkout with `git apply`). Reset the worktree (git -C {wt} checkout -- .) between mutants.
+  - patch.diff : output of `git -C {wt} diff` for that mutant alone (relative to the worktree's HEAD; each patch must apply on its own to a clean checkout with `git apply`). Reset the worktree (git -C {wt} checkout -- .) between mutants. NEVER use `git stash` (the stash is shared with other people's worktrees of the same repository): save diffs to files with `git diff > file` and restore with `git apply`.
   - demo.py : a small standalone program that exits 0 / prints PASS when the property holds for its chosen input and exits 1 / prints FAIL when it does not, run as `cd <repo> && PYTHONPATH=<repo> /venv/bin/python demo.py`. It must FAIL with your patch applied and PASS on the unpatched worktree. It should check the property itself (against independent maths, e.g. numpy linear algebra), not the implementation detail you changed.
   - meta.json : {{"property": "{pid}", "summary": "<one sentence: what was changed>", "needs_to_manifest": "<what specific input/sequence/configuration is needed>", "files": [...], "tests_run": "<command(s) you ran and the result>"}}
 
-You MUST check that the existing tests still pass with each patch applied, at least the directly relevant test directories, e.g.:  cd {wt} && PYTHONPATH={wt} /venv/bin/python -m pytest {tests} -q -x -p no:cacheprovider -n 6 --timeout=900   (some tests are skipped because optional backends are missing - that is fine; if a test already fails WITHOUT your patch it does not count against you: compare with the unpatched result). The machine is shared: do not use more than 6 pytest workers, and do not run the whole-repository test suite more than once per mutant.
+You MUST check that the existing tests still pass with each patch applied, at least the directly relevant test directories, e.g.:  cd {wt} && PYTHONPATH={wt} /venv/bin/python -m pytest {tests} -q -x -p no:cacheprovider -n 4 --timeout=900   (some tests are skipped because optional backends are missing - that is fine; if a test already fails WITHOUT your patch it does not count against you: compare with the unpatched result). The machine is shared: do not use more than 4 pytest workers, and do not run the whole-repository test suite more than once per mutant.
 
 Finish by replying with a short summary (what each mutant changes, what it needs to manifest, test results). Leave the worktree clean (git checkout -- .) when done.""")
